@@ -39,6 +39,9 @@ def plan(tier):
             for k in (1, 2, 3):
                 imgs = [[pol, None, 2 + i, 3] for i, pol in enumerate(["HH", "HV", "VV"][:k])]
                 cases.append({"spec": {"level": level, "images": imgs, "leader": {"n_mp": n_mp}}, "devs": [], "label": f"{level} mp={n_mp} images={k}"})
+        # extreme multiplicities of the variable-length records (single point / single channel, maxima)
+        for n_att, n_chan in ((1, 1), (1, 16), (136, 1), (2, 9)):
+            cases.append({"spec": {"level": level, "images": [["HH", None, 1, 1]], "leader": {"n_att": n_att, "n_chan": n_chan}}, "devs": [], "label": f"{level} attitude points={n_att} channels={n_chan}"})
         # every nullable ASCII field of the big records blanked at once, and optional header fields blank
         devs = []
         for inst, lay in (("dataset_summary", "led.dataset_summary"), ("platform_position", "led.platform_position"), ("radiometric_data", "led.radiometric_data"), ("facility_related_data_5", "led.facility_related_data_5")):
@@ -131,7 +134,7 @@ def execute(case):
 
 def run(res, tier, seed):
     res.rule = (
-        "levels {1.1,1.5,3.1} x map projection {0,1} x {1,2,3} images + per level: all nullable leader fields blank, optional header"
+        "levels {1.1,1.5,3.1} x map projection {0,1} x {1,2,3} images + per level: 4 extreme point/channel counts, all nullable leader fields blank, optional header"
         " fields blank, every 32-bit line field at 2^32-1; in each tree every node, variable and attribute is inspected, every"
         " variable loaded, and 60 selections per image compared before/after load. All cases are distinct products."
     )
